@@ -130,6 +130,12 @@ var progSpecs = []progSpec{
 	{"app", "App", "initiate", "app_initiate", ""},
 	{"app", "App", "Run", "app_Run", ""},
 	{"container/support", "registry", "RegisterSingleton", "sreg_RegisterSingleton", ""},
+	{"component_definition", "", "NewMeta", "meta_NewMeta", ""},
+	{"component_definition", "", "CreateProxy", "meta_CreateProxy", ""},
+	{"container/factory", "defaultFactory", "genProxyComponent", "factory_genProxyComponent", ""},
+	{"container/factory", "defaultFactory", "GetComponents", "factory_GetComponents", ""},
+	{"container/factory", "defaultFactory", "PrepareComponents", "factory_PrepareComponents", ""},
+	{"container/factory", "PostProcessorRegistrationDelegate", "RegisterComponentPostProcessors", "delegate_RegisterComponentPostProcessors", ""},
 }
 
 // conversions whose single argument is passed through unchanged
@@ -344,6 +350,14 @@ func isPackageLevel(id *ast.Ident) bool {
 var localDecl = map[*ast.ValueSpec]bool{}
 
 func (t *tr) call(c *ast.CallExpr) string {
+	// explicit instantiation of a generic function — f[T1, T2](args): the type arguments do not exist at run time
+	if il, ok := c.Fun.(*ast.IndexListExpr); ok {
+		if _, _, isName := dotted(il.X); isName {
+			c2 := *c
+			c2.Fun = il.X
+			return t.call(&c2)
+		}
+	}
 	// conversions / wrappers with one argument
 	if p, _, ok := dotted(c.Fun); ok && passThrough[p] && len(c.Args) == 1 {
 		if fl, isFn := c.Args[0].(*ast.FuncLit); isFn {
